@@ -3,7 +3,7 @@
     sumbool, sumor; no Extract Constant).  N / Z / nat stay the extracted inductive datatypes. *)
 From Coq Require Extraction.
 From Coq Require Import ExtrOcamlBasic.
-From HC Require Import Base.HBytes Model.Tlv8 Model.Storage Model.Framing Model.ConnRead Model.ConnWrite.
+From HC Require Import Base.HBytes Model.Tlv8 Model.Storage Model.Framing Model.ConnRead Model.ConnWrite Model.Charac.
 Extraction Language OCaml.
 Set Extraction KeepSingleton.
 Separate Extraction
@@ -14,4 +14,5 @@ Separate Extraction
   Framing.new_server_session Framing.new_client_session Framing.send_all Framing.recv_all
   Framing.decrypt_stream Framing.decrypt_segments Framing.cc_open Framing.cc_seal Framing.packets_pinned
   ConnRead.run_reads ConnRead.init_conn
-  ConnWrite.wrun HBytes.chunks.
+  ConnWrite.wrun HBytes.chunks
+  Charac.cstep Charac.well_typed Z.opp Z.div Z.modulo.
